@@ -75,6 +75,19 @@ Theorem C13_new_scanner_any_start : forall d c t h now,
   snd (run1 pollst out2 poll_f1v poll_p1 poll_reset1 (None, None) c now (pollst_new t) h).
 Proof. exact new_scanner_any_start. Qed.
 
+(** the deadline is a threshold in time: a poll that acts at some instant (reports the pending
+    MSB or drops the unpaired LSB) acts in exactly the same way at any later instant instead, and
+    a poll that is too early at some instant is too early at every earlier one *)
+Theorem C13_once_due_always_due : forall now now' st c,
+  now <= now' -> fst (poll_poll1 now st c) <> st \/ snd (poll_poll1 now st c) <> None ->
+  poll_poll1 now' st c = poll_poll1 now st c.
+Proof. exact poll_due_monotone. Qed.
+
+Theorem C13_early_before_is_early : forall now now' st c ns a fv fm,
+  p_state st = PPending ns a fv fm -> now <= now' -> now' - a < p_timeout st ->
+  poll_poll1 now st c = (st, None).
+Proof. exact poll_early_monotone. Qed.
+
 (** non-vacuity: a reachable state with a pending MSB; late poll reports, early poll does not *)
 Theorem C13_example :
   exists st st', fst (feeds_run (pollst_new 5) [(0, Some (0, 99, 1)); (0, Some (0, 98, 2)); (3, Some (0, 6, 7))]) = st
@@ -91,4 +104,6 @@ Print Assumptions C13_unpaired_lsb_dropped.
 Print Assumptions C13_unpaired_lsb_never_reported.
 Print Assumptions C13_clock_origin_irrelevant.
 Print Assumptions C13_new_scanner_any_start.
+Print Assumptions C13_once_due_always_due.
+Print Assumptions C13_early_before_is_early.
 Print Assumptions C13_example.
